@@ -300,9 +300,30 @@ def run_sim(sh):
   sh.sample({"stream": "library simulations under contracts", "contract evaluations": n})
 
 
+def check_struct_operand(sh):
+  """== / != between a Bits value and a bitstruct of the same total width: decided by the packed value (or refused) - never a
+  silent 'not equal' for equal bit patterns"""
+  from pymtl3.datatypes import mk_bits, mk_bitstruct
+  rng = sh.rng("structop")
+  for k in range(20):
+    wa, wb = rng.choice([1, 3, 4, 8]), rng.choice([1, 4, 5, 8])
+    T = mk_bitstruct(f"SO_{sh.idx}_{k}", {"a": mk_bits(wa), "b": mk_bits(wb)})
+    va, vb = rng.getrandbits(wa), rng.getrandbits(wb)
+    s_ = T(va, vb); packed = (va << wb) | vb
+    for x in (packed, packed ^ 1):
+      sh.count("bits_vs_struct_comparisons")
+      bx = mk_bits(wa + wb)(x)
+      try: eq, ne = bx == s_, bx != s_
+      except (TypeError, ValueError): sh.count("bits_vs_struct_comparisons_refused"); continue
+      if bool(eq) != (x == packed) or bool(ne) != (x != packed):
+        sh.violation("comparison-of-bits-with-a-bitstruct-of-the-same-width-ignores-the-value", {"bits": hex(x), "struct_packed": hex(packed),
+                     "eq": repr(eq), "ne": repr(ne), "widths": [wa, wb]}, case=("structop", k)); return
+
+
 def run_shard(sh):
   bitsmon.install()
   kind = sh.params["kind"]
+  if sh.idx == 0: check_struct_operand(sh)
   {"exh": run_exh, "rand": run_rand, "sim": run_sim}[kind](sh)
   cells = sum(1 for k in bitsmon.STATS if k.startswith("cell:"))
   bitsmon.drain(sh, mech=None)
